@@ -77,6 +77,16 @@ def r06_1(ctx):
     rep.check(ok, "R06.1", astq.loc(r["fi"]), f"{r['fi'].key}::R06.1::top-sequence",
               f"top-level seed sequence is built from {[{k: str(v) for k, v in c[0].items()} for c in calls]}; expected "
               f"(entropy, pool_size)", "SeedSequence(entropy, pool_size)")
+    # "for all entropies": the zero seed is a seed like any other; only `None` may be replaced by a random draw
+    for label, ent, want in (("entropy=0", Fraction(0), Fraction(0)), ("entropy=None", None, nf.sym("RANDOM_ENTROPY", True))):
+        rz = eval_init(model, entropy=ent)
+        cz = rz["hooks"].seedseq_calls
+        got = cz[0][0].get("entropy") if len(cz) == 1 else None
+        stored = rz["me"].attrs.get("_entropy")
+        ok = got is not None and nf.equal(got, want) and stored is not None and nf.equal(stored, want)
+        rep.check(ok, "R06.1", astq.loc(rz["fi"]), f"{rz['fi'].key}::R06.1::top-sequence::{label}",
+                  f"with {label} the top-level seed sequence uses entropy `{got}` and the object stores `{stored}` (expected "
+                  f"`{want}`): a legal fixed seed would not fix the path", "the given entropy is used as it is")
     # the root's own key / depth
     bcls = model.cls(BI, "BrownianInterval")
     root = Obj("root", cls=bcls)
